@@ -55,5 +55,59 @@ theorem sendChunksAux_shape (cmd op : UInt8) (nexts : List UInt8) (data : Bytes)
     · simp only [payloads_cons, payload_mk]
       rw [h2, slice_append_take]
 
+/-- When the loop reports success, the device's last answer names one of the expected next
+    operations (not the current one); and if all data was required, all of it was sent. -/
+theorem sendChunksAux_ok (cmd op : UInt8) (nexts : List UInt8) (data : Bytes) (full : Bool)
+    (s : List Resp) : ∀ (offset req : Nat) (resp : Bytes),
+    (sendChunksAux cmd op nexts data full offset req s).1 = .ok (true, resp) →
+    (∃ rop, resp[2]? = some rop ∧ rop ∈ nexts ∧ rop ≠ op) ∧
+    (full = true → offset ≤ data.length →
+      payloads (sendChunksAux cmd op nexts data full offset req s).2.1 = data.drop offset) := by
+  induction s with
+  | nil => intro offset req resp h; simp [sendChunksAux] at h
+  | cons r rest ih =>
+    intro offset req resp
+    unfold sendChunksAux
+    dsimp only
+    repeat' split
+    all_goals try (intro h; simp at h; done)
+    · -- finished, everything sent
+      rename_i resp' _ _ rop hrop hin hne hfull
+      intro h
+      simp only [Except.ok.injEq, Prod.mk.injEq, true_and] at h
+      subst h
+      refine ⟨⟨rop, hrop, ?_, ?_⟩, ?_⟩
+      · simp at hin hne
+        exact hin hne
+      · simpa using hne
+      · intro hf hle
+        simp only [payloads_cons, payload_mk, payloads_nil, List.append_nil]
+        simp only [hf, Bool.true_and, decide_eq_true_eq, Nat.not_lt] at hfull
+        unfold slice at hfull ⊢
+        simp only [List.length_take, List.length_drop] at hfull
+        apply List.take_of_length_le
+        simp only [List.length_drop]
+        omega
+    · -- continue
+      rename_i n _
+      intro h
+      obtain ⟨h1, h2⟩ := ih (offset + (slice data offset req).length) n.toNat resp h
+      refine ⟨h1, ?_⟩
+      intro hf hle
+      simp only [payloads_cons, payload_mk]
+      rw [h2 hf (by unfold slice; simp; omega)]
+      have hlen : (slice data offset req).length = min req (data.length - offset) := by
+        unfold slice; simp
+      rw [hlen]
+      unfold slice
+      by_cases hc : req ≤ data.length - offset
+      · rw [Nat.min_eq_left hc, ← List.drop_drop]
+        exact List.take_append_drop req (data.drop offset)
+      · have hc' : data.length - offset ≤ req := by omega
+        rw [Nat.min_eq_right hc']
+        rw [List.take_of_length_le (by simp; omega)]
+        have : offset + (data.length - offset) = data.length := by omega
+        rw [this]; simp
+
 end Dongle
 end PowHsm
